@@ -1181,6 +1181,12 @@ func r243deps(p *Prog, f *FuncInfo, e ast.Expr, depth int, seen map[types.Object
 									visit(y.Args[i])
 								}
 							}
+							if rv := cf.Obj.Type().(*types.Signature).Recv(); rv != nil && types.Object(rv) == d {
+								if se, ok := unparen(y.Fun).(*ast.SelectorExpr); ok {
+									hit = true
+									visit(se.X)
+								}
+							}
 						}
 					}
 					return true
@@ -1195,7 +1201,7 @@ func r243deps(p *Prog, f *FuncInfo, e ast.Expr, depth int, seen map[types.Object
 				if !ok || v.IsField() {
 					return true
 				}
-				if isParam(f.Root(), v) {
+				if isParamOrRecv(f.Root(), v) {
 					out[v] = true
 					return true
 				}
@@ -1228,6 +1234,12 @@ func r243deps(p *Prog, f *FuncInfo, e ast.Expr, depth int, seen map[types.Object
 									for j, pv := range params {
 										if pv == d && j < len(cl.Args) {
 											visit(cl.Args[j])
+										}
+									}
+									// the helper's receiver: the expression the method is called on
+									if rv := cf.Obj.Type().(*types.Signature).Recv(); rv != nil && types.Object(rv) == d {
+										if se, ok := unparen(cl.Fun).(*ast.SelectorExpr); ok {
+											visit(se.X)
 										}
 									}
 								}
@@ -2266,5 +2278,121 @@ func ruleR259(c *Ctx) {
 	}
 	if n == 0 {
 		c.Missing("formal test", "no code reached from AnExpression.UnmarshalXML names tFormalExpression")
+	}
+}
+
+func init() {
+	register(&Rule{ID: "R260", Title: "defaults are handed out as fresh values: an exported Default*/New* function of the schema package that returns a pointer never returns the address of a package-level variable", Min: 1, Run: ruleR260})
+	register(&Rule{ID: "R261", Title: "the engine instantiates the document it is handed: the process element Engine.NewProcess passes on depends on the definitions argument and on nothing the engine keeps", Min: 1, Run: ruleR261})
+}
+
+func ruleR260(c *Ctx) {
+	p := c.P
+	what := "callers adjust what a Default* function returns (a thumbnail layout with narrower gaps). Returned as the address of one shared variable, the adjustment becomes the default of every later caller: a diagram laid out 'with the defaults' gets the foreign gaps and its shapes overlap"
+	n := 0
+	for _, f := range p.Funcs {
+		if f.Body == nil || f.Obj == nil || f.Pkg.PkgPath != pathSchema || !f.Obj.Exported() || recvNamed(f.Obj) != nil {
+			continue
+		}
+		if !strings.HasPrefix(f.Obj.Name(), "Default") && !strings.HasPrefix(f.Obj.Name(), "New") {
+			continue
+		}
+		sig := f.Obj.Type().(*types.Signature)
+		if sig.Results().Len() != 1 {
+			continue
+		}
+		if _, ok := sig.Results().At(0).Type().(*types.Pointer); !ok {
+			continue
+		}
+		n++
+		in := info(f)
+		var bad []string
+		inspectNoLit(f.Body, func(m ast.Node) bool {
+			rs, ok := m.(*ast.ReturnStmt)
+			if !ok || len(rs.Results) != 1 {
+				return true
+			}
+			for _, src := range resolveLocalExpr(in, f, rs.Results[0]) {
+				e := unparen(src)
+				if u, ok := e.(*ast.UnaryExpr); ok && u.Op == token.AND {
+					e = unparen(u.X)
+				}
+				if id := rootIdent(e); id != nil {
+					if v, ok := objOf(in, id).(*types.Var); ok && v.Pkg() != nil && v.Parent() == v.Pkg().Scope() {
+						bad = append(bad, exprString(src)+" at "+c.pos(rs))
+					}
+				}
+			}
+			return true
+		})
+		c.Check(len(bad) == 0, f, f.Decl, "value handed out by "+f.QName(), what, ifElse(len(bad) == 0, "fresh on every call", "shared: "+strings.Join(bad, "; ")))
+	}
+	if n == 0 {
+		c.Missing("default constructors", "no exported Default*/New* function of the schema package returns a pointer")
+	}
+}
+
+func ruleR261(c *Ctx) {
+	p := c.P
+	what := "a definitions id is a name, not an identity: two documents (two revisions of a model) may carry the same one. An engine that remembers 'the executable process of definitions X' instantiates the first document's process for the second: the old revision's activities are requested"
+	n := 0
+	for _, f := range p.Funcs {
+		if f.Body == nil || f.Obj == nil || f.Pkg.PkgPath != pathBpmn || f.Lit != nil {
+			continue
+		}
+		T := recvNamed(f.Obj)
+		if T == nil || T.Obj().Name() != "Engine" {
+			continue
+		}
+		sig := f.Obj.Type().(*types.Signature)
+		var defs types.Object
+		for i := 0; i < sig.Params().Len(); i++ {
+			if pt, ok := sig.Params().At(i).Type().(*types.Pointer); ok && isNamed(pt.Elem(), pathSchema, "Definitions") {
+				defs = sig.Params().At(i)
+			}
+		}
+		if defs == nil {
+			continue
+		}
+		in := info(f)
+		inspectNoLit(f.Body, func(m ast.Node) bool {
+			cl, ok := m.(*ast.CallExpr)
+			if !ok {
+				return true
+			}
+			fn := callee(in, cl)
+			if fn == nil || fn.Pkg() == nil || fn.Pkg().Path() != pathBpmn || recvNamed(fn) != nil || !strings.HasPrefix(fn.Name(), "NewProcess") {
+				return true
+			}
+			for _, a := range cl.Args {
+				t := in.TypeOf(a)
+				isElem := false
+				if pt, ok := t.(*types.Pointer); ok && isNamed(pt.Elem(), pathSchema, "Process") {
+					isElem = true
+				}
+				if sl, ok := t.Underlying().(*types.Slice); ok {
+					if pt, ok := sl.Elem().(*types.Pointer); ok && isNamed(pt.Elem(), pathSchema, "Process") {
+						isElem = true
+					}
+				}
+				if !isElem {
+					continue
+				}
+				n++
+				deps := r243deps(p, f, a, 2, map[types.Object]bool{})
+				var others []string
+				for d := range deps {
+					if d != defs {
+						others = append(others, d.Name())
+					}
+				}
+				ok := deps[defs] && len(others) == 0
+				c.Check(ok, f, a, "process element "+exprString(a)+" handed on by "+f.QName(), what, ifElse(ok, "depends on "+defs.Name()+" only", fmt.Sprintf("depends on %s=%v and on %v", defs.Name(), deps[defs], others)))
+			}
+			return true
+		})
+	}
+	if n == 0 {
+		c.Missing("engine instantiation", "no method of Engine hands a process element to NewProcess / NewProcessSet")
 	}
 }
